@@ -137,7 +137,7 @@ func getSignedLogRoot(ctx context.Context, client trillian.TrillianLogClient, lo
 	}
 
 	// Check over the response.
-	slr := rsp.SignedLogRoot
+	slr := rsp.GetSignedLogRoot()
 	if slr == nil {
 		return nil, errors.New("no log root returned")
 	}
